@@ -927,7 +927,13 @@ def expand_rule(ctx, syn, rid="C01.EXPAND"):
     ctx.functions_analysed.update([fn.qual, th[0].qual, rh[0].qual])
     # the alignment a compressed item had: the compression arms of subselectors() name it (OffsetMode::X in their patterns), default otherwise
     subs_ = [f for f in syn.fns if f.name == "subselectors" and (f.self_ty or "") == "AnnotationStore"]
-    named = set(re.findall(r"Selector::AnnotationSelector\(\w+,Some\(\(_,_,OffsetMode::(\w+)\)\)\)", unparse(subs_[0].body).replace(" ", ""))) if subs_ else set()
+    # (read from the pattern trees, not from their text: a formatter adds line breaks and trailing commas)
+    named = set()
+    for pt in (walk(subs_[0].body) if subs_ else []):
+        if pt.get("k") == "pat" and pt.get("p") == "tuplestruct" and pt.get("path") and pt["path"][-1] == "AnnotationSelector" and len(pt.get("elems", [])) == 2:
+            for q in walk(pt["elems"][1]):
+                if q.get("k") == "pat" and q.get("p") == "path" and len(q.get("path", [])) >= 2 and q["path"][-2] == "OffsetMode":
+                    named.add(q["path"][-1])
     BB = EnumVal(sorted(named)[0] if len(named) == 1 else "BeginBegin")
     targets = {
         "TextSelector": (EnumVal("TextSelector", [7, 40, EnumVal("EndEnd")]), (7, 40)),
